@@ -332,7 +332,7 @@ class Interp:
                     return hits[0]
                 del recv[hits[0]]
                 return None
-            raise Unsupported(f"list.{m}")
+            raise PyRaise("AttributeError", f"list.{m}")
         if isinstance(recv, dict):
             if m == "get":
                 return recv.get(args[0], args[1] if len(args) > 1 else None)
@@ -364,7 +364,7 @@ class Interp:
             if m == "clear":
                 recv.clear()
                 return None
-            raise Unsupported(f"dict.{m}")
+            raise PyRaise("AttributeError", f"dict.{m}")
         raise Unsupported(f"method {m}")
 
     def bind(self, a: ast.arguments, args, kwargs, env, defenv):
